@@ -131,7 +131,10 @@ try:
                     open(os.path.join(shim, "go"), "w").write("#!/bin/sh\nif [ \"$1\" = run ] && [ \"$2\" = . ]; then shift 2; exec %s \"$@\"; fi\nexec %s \"$@\"\n" % (os.path.join(shim, "skylight-prebuilt"), realgo))
                     os.chmod(os.path.join(shim, "go"), 0o755)
                     env2 = dict(env, PATH=shim + os.pathsep + env.get("PATH", ""))
-                    r3 = subprocess.run([realgo, "test", "-vet=off", "-count=1", "-timeout", "25m", "-skip", SKIP, rel], cwd=W, env=env2, stdout=subprocess.PIPE, stderr=subprocess.STDOUT, text=True)
+                    # (`go test` puts GOROOT/bin in front of PATH for the test process, so the test binary is built and run directly)
+                    rcb2, _ = run(["go", "test", "-c", "-vet=off", "-o", os.path.join(shim, "skylight.test"), rel])
+                    rcb = rcb or rcb2
+                    r3 = subprocess.run([os.path.join(shim, "skylight.test"), "-test.count=1", "-test.timeout=25m"], cwd=os.path.join(W, "cmd", "skylight"), env=env2, stdout=subprocess.PIPE, stderr=subprocess.STDOUT, text=True)
                     retries[pk]["with_prebuilt_binary_shim"] = {"build_rc": rcb, "rc": r3.returncode, "failed": sorted(set(re.findall(r"--- FAIL: (\S+)", r3.stdout)))}
                     if rcb == 0 and r3.returncode == 0:
                         still.remove(pk)
